@@ -1,7 +1,8 @@
 """
 C07 -- inverse and division are exact two-sided inverses wherever they return.
 
-Engine A with proxy division (fresh quotient variable q, q*den = num, den != 0 recorded):
+Engine A with proxy division (reciprocal variable q, q*den = 1, den != 0 recorded; shared between
+denominators proved identical):
  inv      x.inv() is executed on symbolic x; proved: x*xi = 1 = xi*x on every blade, for all x
           whose (single, recorded) denominator is non-zero -- closed forms (d<=5) and the
           iterative Shirokov scheme (d>=6).
